@@ -90,6 +90,10 @@ def run(ck: Checker, prog: Program, tier: str):
             ck.guard(c02._kernel, ck, prog, k)
         ck.guard(c02._sg, ck, prog)
         ck.guard(c02._registry, ck, prog)
+    # the settings a caller constructs are the settings the pipeline reads (taper, smoothing, FFT length, method, ...)
+    from .c15 import check_delivery
+    ck.guard(check_delivery, ck, prog, "C01.R7", ["HvsrTraditionalProcessingSettings", "HvsrTraditionalSingleAzimuthProcessingSettings", "HvsrTraditionalRotDppProcessingSettings", "HvsrAzimuthalProcessingSettings", "HvsrDiffuseFieldProcessingSettings"],
+             why="the curve would be computed with a different taper / smoothing / method than requested", floor=20)
 
 
 def _r1(ck: Checker, prog: Program):
